@@ -107,6 +107,7 @@ const (
 	vpWaitReadWoke
 	vpWaitFlushBeforeBlock
 	vpOnHupBeforeCloseLock
+	vpSetOnRequestEnter
 	vpCount
 )
 
@@ -211,6 +212,7 @@ var verifPointNames = [...]string{
 	vpWaitReadWoke:            "WaitReadWoke",
 	vpWaitFlushBeforeBlock:    "WaitFlushBeforeBlock",
 	vpOnHupBeforeCloseLock:    "OnHupBeforeCloseLock",
+	vpSetOnRequestEnter:       "SetOnRequestEnter",
 }
 
 func verifB2I(b bool) int {
